@@ -675,6 +675,21 @@ func (c *Ctx) FPBin(op Op, a, b *Term) *Term {
 	if a.IsConst() && b.IsConst() {
 		x, y := fpFromBits(w, a.Val), fpFromBits(w, b.Val)
 		var r float64
+		if w == 32 {
+			x32, y32 := float32(x), float32(y)
+			var r32 float32
+			switch op {
+			case OFPMul:
+				r32 = x32 * y32
+			case OFPAdd:
+				r32 = x32 + y32
+			case OFPSub:
+				r32 = x32 - y32
+			case OFPDiv:
+				r32 = x32 / y32
+			}
+			return c.FPConst(w, float64(r32))
+		}
 		switch op {
 		case OFPMul:
 			r = x * y
@@ -684,9 +699,6 @@ func (c *Ctx) FPBin(op Op, a, b *Term) *Term {
 			r = x - y
 		case OFPDiv:
 			r = x / y
-		}
-		if w == 32 {
-			r = float64(float32(r))
 		}
 		return c.FPConst(w, r)
 	}
